@@ -1,3 +1,65 @@
-import WireV.Sets
+import WireP.Lemmas.SolveExample
+/-! # C06 — a missing provider is reported, exactly when one is missing, naming the type
+
+Property theorems only; lemmas in `WireP/Lemmas/Solve*.lean`; model `WireV.svStep` / `solve`.
+
+Deviation from the brief: the "only if" half of `solve_missing_iff` needs `GivenLeaf pm given`
+(a given type has no dependencies in the map), which `H` does not imply — counterexample `pmB`
+below.  `GivenLeaf` follows from `GivenArgs` (every given type is an `.arg` entry), which is what
+`buildProviderMap args …` guarantees for `given = args`. -/
 namespace WireP.C06
+open WireV WireP.Solve
+
+/-- **No error iff nothing needed is missing**: the planner reports an error exactly when some
+    type reachable from the requested one is neither given nor provided. -/
+theorem solve_missing_iff_partial {pm : PMap} {sm : SMap} {given : List Ty} {out : Ty}
+    (hH : H pm given) (hl : GivenLeaf pm given) :
+    (final pm sm given out).errs = [] ↔
+      ∀ u, Reach pm out u → u ∈ given ∨ (look u pm).isSome :=
+  WireP.Solve.solve_missing_iff_partial hH hl
+
+/-- the "if" half holds for every map satisfying `H` (no extra hypothesis) -/
+theorem solve_missing_if {pm : PMap} {sm : SMap} {given : List Ty} {out : Ty} (hH : H pm given)
+    (h : ∀ u, Reach pm out u → u ∈ given ∨ (look u pm).isSome) :
+    (final pm sm given out).errs = [] :=
+  WireP.Solve.solve_missing_if hH.concClosed hH.givenNodup h
+
+/-- **Every diagnostic is true and names the type**: each error is a `noProvider t up` for a
+    type `t` that is needed, not given and has no provider. -/
+theorem solve_missing_named {pm : PMap} {sm : SMap} {given : List Ty} {out : Ty} (hH : H pm given) :
+    ∀ e ∈ (final pm sm given out).errs, ∃ t up, e = Err.noProvider t up ∧ look t pm = none ∧
+      t ∉ given ∧ Reach pm out t :=
+  WireP.Solve.solve_missing_named hH.concClosed hH.givenNodup
+
+/-- **Errors block output**: `solve` hands out a call list only if the machine stopped with an
+    empty stack and no error (and then the call list is the machine's). -/
+theorem solve_errs_no_calls {pm : PMap} {sm : SMap} {d : SetDef} {impIds : List Nat}
+    {given : List Ty} {out : Ty} {cs : List Call}
+    (h : solve pm sm d impIds given out = .ok cs) :
+    (final pm sm given out).errs = [] ∧ (final pm sm given out).stk = [] ∧
+      cs = (final pm sm given out).calls :=
+  have := WireP.Solve.solve_ok h
+  ⟨this.2.1, this.1, this.2.2.2⟩
+
+/-! ## non-vacuity -/
+
+open WireP.Solve.Ex
+
+example : H pmEx [0] ∧ GivenLeaf pmEx [0] := ⟨hEx, leafEx⟩
+example : (final pmEx smEx [0] 7).errs = [] := by decide
+
+/-- the same diamond without the value `1`: one error, naming `1` and the chain of requesters -/
+example : H pmMiss [0] ∧ GivenLeaf pmMiss [0] := ⟨hMiss, leafMiss⟩
+example : (final pmMiss smMiss [0] 7).errs = [Err.noProvider 1 [2, 3, 4, 6, 7]] ∧
+    (final pmMiss smMiss [0] 7).calls = [] := by decide
+example : look 1 pmMiss = none := by decide
+example : solve pmMiss smMiss dEx [] [0] 7 = .errs [Err.noProvider 1 [2, 3, 4, 6, 7]] := rfl
+
+/-- `GivenLeaf` cannot be dropped from `solve_missing_iff_partial`: with a given type `0` that
+    also has a provider needing the unprovided `5`, `H` holds and there is no error, although `5`
+    is reachable, not given and not provided. -/
+example : H pmB [0] ∧ (final pmB smB [0] 0).errs = [] ∧ Reach pmB 0 5 ∧ 5 ∉ [0] ∧
+    look 5 pmB = none :=
+  ⟨hB, by decide, reachB5, by decide, by decide⟩
+
 end WireP.C06
